@@ -1,5 +1,102 @@
-/- Line protocol for C17 (placeholder until the model is in place). -/
+/- Line protocol for C17:
+   `c17 spec <tin> <now|-> <tree>`    tree = preorder tokens joined by `,`: `_` (closed port) or
+                                      `N,dc,off,pd,fd,link,<child3>,<child1>,<child2>`
+       -> `<reports>|<arrival times>|<true parents>|<true downstream>`   (the Lean physical spec; diffed against the Rust oracle)
+   `c17 assign <chk|wrap> <reports>`  report = `b0b1b2b3,dc,t0,t1,t2,t3,rx` (by port NUMBER), joined by `;`
+       -> `ok|<parent,delay,d0,d1,d2,d3;..>` | `err:Topology` | `panic:<class>`     (assign_parent_relationships)
+   `c17 dc <chk|wrap> <now> <reports>`
+       -> `ok:<reference address|->|<devs>|<addr:reg:hex,..>` | `err:Topology|-|-` | `panic:<class>|-|<writes so far>`  (configure_dc) -/
+import EcModel.DcSpec
 import EcModel.Drv.Util
+
 namespace Ec.Drv.C17
-def handle (_args : List String) : String := "bad-case"
+open Ec Ec.Drv Ec.Dc Ec.DcSpec
+
+def parseTree : Nat → List String → Option (Tree × List String)
+  | 0, _ => none
+  | _ + 1, "_" :: r => some (.none, r)
+  | f + 1, "N" :: dc :: off :: pd :: fd :: link :: r =>
+    match parseTree f r with
+    | some (c3, r1) =>
+      match parseTree f r1 with
+      | some (c1, r2) =>
+        match parseTree f r2 with
+        | some (c2, r3) => some (.node ⟨nat! dc, nat! off, nat! pd, nat! fd, nat! link⟩ c3 c1 c2, r3)
+        | none => none
+      | none => none
+    | none => none
+  | _, _ => none
+
+def bit (s : String) (i : Nat) : Bool := s.toList.getD i '0' == '1'
+
+def parseReport (i : Nat) (s : String) : Report :=
+  match splitOn s "," with
+  | [b, dc, t0, t1, t2, t3, rx] =>
+    ⟨4096 + i, bit b 0, bit b 1, bit b 2, bit b 3, nat! dc != 0, nat! t0, nat! t1, nat! t2, nat! t3, nat! rx⟩
+  | _ => ⟨4096 + i, false, false, false, false, false, 0, 0, 0, 0, 0⟩
+
+def parseReportsFrom : Nat → List String → List Report
+  | _, [] => []
+  | i, s :: ss => parseReport i s :: parseReportsFrom (i + 1) ss
+
+def parseReports (s : String) : List Report :=
+  if s = "-" then [] else parseReportsFrom 0 (splitOn s ";")
+
+def b01 (b : Bool) : String := if b then "1" else "0"
+
+def showReport (r : Report) : String :=
+  s!"{b01 r.act0}{b01 r.act1}{b01 r.act2}{b01 r.act3},{b01 r.dc},{r.t0},{r.t1},{r.t2},{r.t3},{r.rx}"
+
+def showOpt : Option Nat → String
+  | none => "-"
+  | some n => toString n
+
+/-- downstream by port NUMBER 0,1,2,3 = array slots 0,2,3,1 -/
+def showDev (d : Dev) : String :=
+  s!"{showOpt d.parent},{d.delay},{showOpt d.ports.a0.downstream},{showOpt d.ports.a2.downstream},{showOpt d.ports.a3.downstream},{showOpt d.ports.a1.downstream}"
+
+def showDevs (ds : List Dev) : String := if ds.isEmpty then "-" else joinWith ";" (ds.map showDev)
+
+def panicClass (w : String) : String :=
+  if w = "Invalid topology" then "topology"
+  else if w = "no free ports on parent" then "nofree"
+  else if w = "Parent assigned port" then "assigned"
+  else if w = "unwrap of `self.active_ports().min_by_key(..)` failed" then "entry"
+  else if w = "unwrap of `parents.iter_mut().find(..)` failed" then "parentfind"
+  else if w = "attempt to add with overflow" ∨ w = "attempt to negate with overflow" then "overflow"
+  else "other"
+
+def showErr : Err → String
+  | .topology => "err:Topology"
+  | .internal => "err:Internal"
+
+def showWrite (w : Write) : String := s!"{w.addr}:{w.reg}:{hexBytes w.data}"
+def showWrites (ws : List Write) : String := if ws.isEmpty then "-" else joinWith "," (ws.map showWrite)
+
+def modeOf (s : String) : Mode := if s = "wrap" then .wrapping else .checked
+
+def handle (args : List String) : String :=
+  match args with
+  | ["spec", tin, _now, tree] =>
+    match parseTree 200 (splitOn tree ",") with
+    | some (t, []) =>
+      let v := visit t 0 (nat! tin)
+      let arr := arrivals t (nat! tin)
+      joinWith ";" (v.1.map showReport) ++ "|" ++ joinWith "," (arr.1.map toString) ++ "|" ++
+        joinWith "," ((trueParents t 0 none).map showOpt) ++ "|" ++
+        joinWith ";" ((trueDownstream t 0).map (fun d => s!"{showOpt d.1},{showOpt d.2.1},{showOpt d.2.2.1},{showOpt d.2.2.2}"))
+    | _ => "bad-tree"
+  | ["assign", mode, reports] =>
+    match assignParentRelationships (modeOf mode) (mkDevs (parseReports reports)) with
+    | .ok ds => "ok|" ++ showDevs ds
+    | .err e => showErr e
+    | .panic w => "panic:" ++ panicClass w
+  | ["dc", mode, now, reports] =>
+    let r := configureDc (modeOf mode) (nat! now) (parseReports reports)
+    match r.2 with
+    | .ok (ref, ds) => "ok:" ++ showOpt (ref.map (· + 4096)) ++ "|" ++ showDevs ds ++ "|" ++ showWrites r.1
+    | .err e => showErr e ++ "|-|" ++ showWrites r.1
+    | .panic w => "panic:" ++ panicClass w ++ "|-|" ++ showWrites r.1
+  | _ => "bad-case"
+
 end Ec.Drv.C17
